@@ -42,7 +42,10 @@ class Roles:
         self.view = view
         p = ctx.p
         self.cls = p.cls(view)
-        self.funcs = view_funcs(ctx, view)
+        self.all_funcs = view_funcs(ctx, view)
+        sync = not p.method(view, "_process_event").is_async
+        # under a synchronous view every ``async def`` inherited from the base class is dead code
+        self.funcs = [f for f in self.all_funcs if not (sync and f.is_async)]
         self.enter = p.method(view, "_enter_states")
         self.exit = p.method(view, "_exit_states")
         self.process_event = p.method(view, "_process_event")
